@@ -17,8 +17,8 @@ cargo +nightly fuzz build --fuzz-dir "$HERE/fuzz" "$target" >"$work/build.log" 2
 if [ "$target" = sections ]; then
   runs="${1:-200000}"; seed="${2:-1}"; prop=C01
   corpus="$work/corpus-sections"; rm -rf "$corpus"; mkdir -p "$corpus"
-  "$HERE/target/release/vpcheck" --corpus "$corpus" 64 x
-  maxlen=65536
+  "$HERE/target/release/vpcheck" --corpus "$corpus" 64 "$HERE/work/corpus"
+  maxlen=131072
 else
   prop="$1"; runs="${2:-200000}"; seed="${3:-1}"
   export FUZZ_PROP="$prop"
